@@ -85,6 +85,9 @@ def gen_fd(rng, tier):
                 a[pos] = 79
                 sigs.append((255, 0, a[:max(pos + 2, 6)]))
                 sigs.append((255, 79, [79] * (pos + 1)))
+            # long double (known finding K2 on SysV; outside the domain elsewhere)
+            sigs.append((255, 0, [44]))
+            sigs.append((255, 0, [43] * 8 + [44, 38]))
             # varargs at every index
             for va in range(0, 6):
                 sigs.append((va, 38, [38, 79, 43, 79, 40, 79][:max(va, 1) + 2]))
